@@ -3,5 +3,6 @@
 EXTENDS O2OPipe, Json, TLC
 EmitInput == (pc = "parse_type" /\ ti = 1 /\ traits = <<>>) => PrintT(<<"CASE", ToJson(in)>>)
 \* only the author phase and the seal are explored by the generator
+AllTraitNames == TraitNames
 GenConstraint == pc \in {"author", "parse_type"} /\ ti = 1
 =============================================================================
